@@ -97,6 +97,7 @@ type Interp struct {
 	curInstr  ssa.Instruction
 	regions   map[*ssa.If]*regionInfo
 	skipModel string
+	cborStore map[*ByteObj]Value
 	opaqueLens map[int32]bool
 	axiomSeen map[*Term]bool
 	forkSites map[string]int
